@@ -108,6 +108,12 @@ struct FileAst {
     body: Vec<Node>,
 }
 
+/// number of ways the value of a generated `@error` is written (see the printer)
+const ERROR_FORMS: u32 = 12;
+/// expected message of an `@error` whose text is not written down but has to equal what
+/// `@debug inspect(<same expression>)` on the line before delivered
+const SAME_AS_INSPECT: &str = "=inspect-of-the-line-before";
+
 #[derive(Clone, Debug, PartialEq)]
 pub struct Expected {
     pub kind: String,
@@ -338,17 +344,30 @@ impl Printer {
                     self.stmt(indent, &format!("@warn {}", Self::msg("w", *tag, vars)));
                 }
                 Node::Error { tag, vars } => {
-                    self.lines.insert(*tag, self.line + 1);
                     let pre = if self.cjk && !self.sass { "$_cjk: \"日本語テキストの説明です、とても長い\"; " } else { "" };
                     let m = Self::msg("e", *tag, vars);
                     // the value of @error is reported *inspected*: strings keep their quotes, also inside lists and maps
-                    let value = match tag % 5 {
+                    let value = match tag % ERROR_FORMS {
                         0 => format!("\"{}\"", m),
                         1 => format!("\"{}\", \"b c\"", m),
                         2 => format!("(k: \"{}\")", m),
                         3 => format!("(\"{}\", 12px, null, [a, b])", m),
-                        _ => format!("\"{} {{}} {{0}} %s\"", m),
+                        4 => format!("\"{} {{}} {{0}} %s\"", m),
+                        // from here on the expectation is not written down: the line before the
+                        // @error prints inspect() of the same expression through @debug, and the
+                        // error has to carry exactly that text
+                        5 => format!("(\"{}\",)", m),
+                        6 => format!("[(\"{}\" 1.50px), (a: null)]", m),
+                        7 => format!("2px * 3 1.23456789012 \"{}\" -0.0 1e3 0.000001", m),
+                        8 => format!("(k1: (\"{}\", [x y]), \"k 2\": (n: null, t: true, e: ()))", m),
+                        9 => format!("#ff0000 red rgba(0, 0, 0, 0.5) \"{}\" transparent", m),
+                        10 => format!("calc(1px + 2%) \"{}\" () (1 2, 3 4) [[]]", m),
+                        _ => format!("join((), \"{}\", comma) unquote(\"a b\") \"#{{1 + 1}}x\" 10px10 -x", m),
                     };
+                    if tag % ERROR_FORMS >= 5 {
+                        self.stmt(indent, &format!("@debug inspect({})", value));
+                    }
+                    self.lines.insert(*tag, self.line + 1);
                     self.stmt(indent, &format!("{}@error {}", pre, value));
                 }
                 Node::For { var, lo, hi, inclusive, body, bound_func } => {
@@ -629,12 +648,17 @@ impl<'a> Exec<'a> {
                 Node::Warn { tag, vars } => self.out.push(Expected { kind: "warn".into(), file: self.files[fi].path.clone(), line: self.lines[fi][tag], msg: Self::msg("w", *tag, vars, env) }),
                 Node::Error { tag, vars } => {
                     let m = Self::msg("e", *tag, vars, env);
-                    let inspected = match tag % 5 {
+                    let inspected = match tag % ERROR_FORMS {
                         0 => format!("\"{}\"", m),
                         1 => format!("\"{}\", \"b c\"", m),
                         2 => format!("(k: \"{}\")", m),
                         3 => format!("\"{}\", 12px, null, [a, b]", m),
-                        _ => format!("\"{} {{}} {{0}} %s\"", m),
+                        4 => format!("\"{} {{}} {{0}} %s\"", m),
+                        _ => {
+                            // the @debug inspect(...) on the line before: any text, which the error then has to repeat
+                            self.out.push(Expected { kind: "debug".into(), file: self.files[fi].path.clone(), line: self.lines[fi][tag] - 1, msg: "*".into() });
+                            SAME_AS_INSPECT.to_string()
+                        }
                     };
                     self.error = Some(Expected { kind: "error".into(), file: self.files[fi].path.clone(), line: self.lines[fi][tag], msg: inspected });
                     return false;
@@ -1074,7 +1098,7 @@ pub fn gen_script(rng: &mut Rng, root: &str) -> Script {
 // ---------------------------------------------------------------- oracle
 
 fn same_delivery(cwd: &str, d: &LogEvent, e: &Expected) -> bool {
-    d.kind == e.kind && d.msg == e.msg && d.line == e.line && normalize(cwd, &d.file) == normalize(cwd, &e.file)
+    d.kind == e.kind && (d.msg == e.msg || e.msg == "*") && d.line == e.line && normalize(cwd, &d.file) == normalize(cwd, &e.file)
 }
 
 /// `prefix_ok`: the delivered list may stop early (a fault made the run fail).
@@ -1166,7 +1190,21 @@ fn judge(job: &JobSpec, expected: &[Expected], error: &Option<Expected>, mode: &
     if mode == "plain" || mode == "quiet" {
         match (error, &r.outcome) {
             (Some(ee), Outcome::Err(e)) => {
-                if ee.msg == "*" {
+                if ee.msg == SAME_AS_INSPECT {
+                    if e.kind != "parse" || e.line != ee.line || normalize(&job.cwd, &e.file) != normalize(&job.cwd, &ee.file) {
+                        v.push(("error-mismatch".into(), format!("expected the @error at {}:{}, got kind={} message={:?} at {}:{}", ee.file, ee.line, e.kind, e.message, e.file, e.line)));
+                    } else if mode == "plain" {
+                        // the delivery just before the error is `@debug inspect(<the same expression>)`
+                        match r.log.last() {
+                            Some(d) if d.kind == "debug" && d.line + 1 == ee.line => {
+                                if d.msg != e.message {
+                                    v.push(("error-not-inspected".into(), format!("@error at {}:{} reports {:?}, but inspect() of the same expression, printed by the line before, is {:?}", ee.file, ee.line, e.message, d.msg)));
+                                }
+                            }
+                            _ => {} // a missing delivery is reported by the log comparison
+                        }
+                    }
+                } else if ee.msg == "*" {
                     // an error of the implementation's own wording: it must be a located error in the right file
                     if e.kind != "parse" || (ee.file != "*" && normalize(&job.cwd, &e.file) != normalize(&job.cwd, &ee.file)) {
                         v.push(("error-mismatch".into(), format!("expected a located error in {}, got kind={} in {:?}: {}", ee.file, e.kind, e.file, e.message)));
@@ -1402,6 +1440,9 @@ impl Engine for LoggerEngine {
             res.bump("expected_deliveries", sc.expected.len() as u64);
             if sc.error.is_some() {
                 res.bump("scripts_with_error", 1);
+            }
+            if sc.error.as_ref().map_or(false, |e| e.msg == SAME_AS_INSPECT) {
+                res.bump("probe.error_text_compared_with_inspect_of_same_expression", 1);
             }
             if sc.expected.iter().any(|e| normalize("/w", &e.file) != normalize("/w", &sc.job.files[0].0)) {
                 res.bump("probe.delivery_from_imported_file", 1);
